@@ -58,7 +58,7 @@ def interpret(case):
                 regs[t[1]].mul(int(t[2]))
             elif code == 'HZ' and regs.get(t[1]) is not None:
                 regs[t[1]].reset()
-            elif code == 'K':
+            elif code in ('K', 'KF'):
                 regs[t[1]] = regs[t[2]].clone() if regs.get(t[2]) is not None else None
             elif code == 'O':
                 out[i] = regs[t[1]].clone() if regs.get(t[1]) is not None else None
@@ -67,7 +67,7 @@ def interpret(case):
             regs[t[1]] = []
         elif code == 'V':
             regs[t[1]] = [h2f(t[2])]
-        elif code in ('A', 'E', 'ER'):
+        elif code in ('A', 'AT', 'E', 'ER'):
             v = floats(t[2:])
             items = [tuple(v[j:j + arity]) if arity == 2 else v[j] for j in range(0, len(v), arity)]
             regs.setdefault(t[1], []).extend(items)
@@ -79,7 +79,7 @@ def interpret(case):
             regs[t[1]] = [x for x in floats(t[8:]) if c19.keep(x, t[7] if t[7].startswith('t') else int(t[7]))]
         elif code == 'M':
             regs.setdefault(t[1], []).extend(list(regs.get(t[2], [])))
-        elif code == 'K':
+        elif code in ('K', 'KF'):
             regs[t[1]] = list(regs.get(t[2], []))
         elif code in ('O', 'OS'):
             out[i] = list(regs.get(t[1], []))
